@@ -626,6 +626,11 @@ DEFECT_CLOSE_NIL = GO_HEAD + """func main() {
 }
 """
 
+GO_EXPECTED = {
+    "defect1": (["closed ok", "closer recovered false", "selector recovered true"], "exit0"),
+    "defect2": (["recovered true"], "exit0"),
+}
+
 NONDET_SELECT = GO_HEAD + """func main() {
 	a := make(chan int, 1)
 	b := make(chan int, 1)
@@ -648,7 +653,7 @@ def run_programs(chk, tier, rng):
     thorough = tier == "thorough"
     jobs = []
     # (a) scripted programs: GopherJS under Node vs the model's prediction
-    Ps = [gen_scripted_program(rng, "s%d" % i) for i in range(250 if thorough else 30)]
+    Ps = [gen_scripted_program(rng, "s%d" % i) for i in range(250 if thorough else 24)]
     pred = model_predict(Ps)
     keep = []
     for P, (trace, ending, script) in zip(Ps, pred):
@@ -680,9 +685,10 @@ def run_programs(chk, tier, rng):
     for i, (name, src) in enumerate(det):
         jobs.append({"id": "d%d" % i, "files": {"main.go": src}, "variants": ["plain"], "native": True, "timeout": 20})
     # (c) the recorded defects as programs, (d) a nondeterministic select
-    jobs.append({"id": "defect1", "files": {"main.go": DEFECT_SELECT_SEND}, "variants": ["plain"], "native": True})
-    jobs.append({"id": "defect2", "files": {"main.go": DEFECT_CLOSE_NIL}, "variants": ["plain"], "native": True})
-    jobs.append({"id": "nondet", "files": {"main.go": NONDET_SELECT}, "variants": ["plain"], "native": True})
+    # (fixed programs: their native Go output is a constant, re-validated against the Go toolchain in the thorough tier)
+    jobs.append({"id": "defect1", "files": {"main.go": DEFECT_SELECT_SEND}, "variants": ["plain"], "native": thorough})
+    jobs.append({"id": "defect2", "files": {"main.go": DEFECT_CLOSE_NIL}, "variants": ["plain"], "native": thorough})
+    jobs.append({"id": "nondet", "files": {"main.go": NONDET_SELECT}, "variants": ["plain"], "native": thorough})
     res = {r["id"]: r for r in progs.run_jobs(jobs)}
     # a run that hit the wall-clock limit on a loaded machine is repeated alone with a generous limit
     for attempt in range(2):
@@ -725,7 +731,11 @@ def run_programs(chk, tier, rng):
     # the two defects repaired in round 2, as regression programs: GopherJS must now equal Go
     for pid, sig, src in (("defect1", SIG_SELECT_SEND, DEFECT_SELECT_SEND), ("defect2", SIG_CLOSE_NIL, DEFECT_CLOSE_NIL)):
         js = progs.observe_js(res[pid]["runs"]["plain"])
-        nat = progs.observe_native(res[pid]["runs"]["native"])
+        nat = GO_EXPECTED[pid]
+        if thorough:
+            n2 = progs.observe_native(res[pid]["runs"]["native"])
+            if (n2[0], norm_end(n2[1])) != nat:
+                raise RuntimeError("recorded Go output of %s is stale: %s" % (pid, n2))
         chk.add_case("prog-defect", pid, kindkey="prog:defect")
         if (js[0], norm_end(js[1])) != (nat[0], norm_end(nat[1])):
             chk.add_mismatch("prog-defect", "prog:%s\n%s" % (pid, src), "%s / %s" % js, "%s / %s" % nat, signature=sig)
@@ -738,7 +748,7 @@ def run_programs(chk, tier, rng):
             names = {"0": "a", "1": "b"}
             allowed.add(tuple("%s %s" % (names[x.split(" ")[0].split(":")[1]], x.split(" ")[0].split(":")[2]) for x in o[-2:]))
     js = progs.observe_js(res["nondet"]["runs"]["plain"])
-    nat = progs.observe_native(res["nondet"]["runs"]["native"])
+    nat = progs.observe_native(res["nondet"]["runs"]["native"]) if thorough else (list(sorted(allowed)[0]), "exit0")
     chk.add_case("prog-nondet", "nondet-select", kindkey="prog:nondet")
     chk.extra["nondet_select_allowed"] = sorted(" | ".join(a) for a in allowed)
     if tuple(js[0]) not in allowed or js[1] != "exit0":
